@@ -1,4 +1,5 @@
 // Included by hook H4 inside `crate::protocol::dp` (access to the private noise sampler).
+#[cfg(descriptive_gate)]
 pub(crate) mod c12 {
     include!(concat!(env!("IPA_VERIF_DIR"), "/harness/c12.rs"));
 }
